@@ -1,6 +1,7 @@
 (* Property C19 - statements only.  Every theorem is closed by [exact] of a lemma from
-   Proofs/*.v (four of them - C19_merge_never_clears, C19_responses_hom, C19_refresh_answered_once,
-   C19_loop_inv - by a two-line script that only repackages such lemmas); the statements are pinned again in /verif/pins/C19.v.
+   Proofs/*.v (seven of them - C19_merge_never_clears, C19_responses_hom, C19_refresh_answered_once,
+   C19_loop_inv, C19_fetch_conservation, C19_fetch_fresh, C19_fetch_request_starts_full - by a short script: the
+   first six only repackage such lemmas, the last one rewrites with two of them); the statements are pinned again in /verif/pins/C19.v.
 
    System (Model/MergeChan.v): the merge channel's shared state, the sender's and the
    receiver's programs cut into their atomic actions, and tokio's Notify restricted to one
@@ -214,6 +215,9 @@ Proof. exact loop_eventually. Qed.
    resolution (resolve) through hook verif_fetch_plan, exactly.  NOT TIED (proved, pinned by a census
    of start_due_fetches / work_on_cc): the starter step and the worker transitions. ---- *)
 
+(* The next three statements are UNFOLDINGS of the model functions note_* / start_due (proofs: repeat split /
+   unfold + reflexivity); start_due is not extracted - they document how the model is written, a census pins the
+   four source fragments they correspond to. *)
 (* a due full fetch subsumes all partial work *)
 Theorem C19_plan_full_subsumes : forall p,
   note_full p = PFull /\ (forall r, note_routes r PFull = PFull) /\ note_topology PFull = PFull.
